@@ -364,7 +364,9 @@ func genTree(r *hx.Rng, dir string, o imgOpts) (*tree, error) {
 		}
 		paths = append(paths, p)
 	}
-	sort.Slice(paths, func(i, j int) bool { return len(paths[i]) > len(paths[j]) || (len(paths[i]) == len(paths[j]) && paths[i] < paths[j]) }) // children before parents
+	sort.Slice(paths, func(i, j int) bool {
+		return len(paths[i]) > len(paths[j]) || (len(paths[i]) == len(paths[j]) && paths[i] < paths[j])
+	}) // children before parents
 	for _, p := range paths {
 		n := t.nodes[p]
 		if strings.HasPrefix(p, "big/") && r.Chance(70) {
